@@ -506,6 +506,9 @@ pub fn steps_for(bytes: &[u8]) -> Vec<Step> {
         v.push(Step::Rename(nm("k"), nm("nomatch"), false));
         v.push(Step::Rename(name_of_wire_len(252), nm("a"), true));
         v.push(Step::Rename(vec![], nm("a"), true));
+        // target and source equal, and equal up to case: nothing to rename, still a full call
+        v.push(Step::Rename(nm("B.A"), nm("b.a"), true));
+        v.push(Step::Rename(nm("b.a"), nm("b.a"), false));
     }
     for (sec, recs) in [(1u8, m.an.clone()), (2, m.ns.clone()), (3, m.ar.iter().filter(|r| r.rtype != T_OPT).cloned().collect::<Vec<_>>())] {
         for (i, rec) in recs.iter().enumerate().take(3) {
@@ -588,6 +591,87 @@ fn run(ctx: &mut Ctx, rep: &mut Report) {
     let inits = initial();
     let depth = 3;
     let mut gi = 0u64;
+    // grids of single calls of the entries that do not depend on the packet's state: every text length 1..=255
+    // with and without a final dot through raw_name_from_str
+    {
+        let mut names: Vec<Vec<u8>> = vec![];
+        for len in 1..=255usize {
+            // (the script encoding holds a name's length in one byte) labels of 50 bytes separated by dots; the last label takes the rest
+            let mut t: Vec<u8> = vec![];
+            while t.len() < len {
+                if t.len() % 51 == 50 {
+                    t.push(b'.');
+                } else {
+                    t.push(b'a' + (t.len() % 23) as u8);
+                }
+            }
+            if t.last() == Some(&b'.') {
+                let l = t.len();
+                t[l - 1] = b'z';
+            }
+            names.push(t.clone());
+            let mut d = t.clone();
+            let l = d.len();
+            d[l - 1] = b'.';
+            if l >= 2 && d[l - 2] != b'.' {
+                names.push(d);
+            }
+        }
+        for (k, n) in names.into_iter().enumerate() {
+            gi += 1;
+            if !ctx.mine(gi) {
+                continue;
+            }
+            let script = vec![Step::RawNameFromStr(n)];
+            rep.transitions += 1;
+            rep.evaluations += 1;
+            rep.states += 1;
+            match check_script(&table, &inits[0], &script) {
+                Ok(c) => rep.class(&c),
+                Err((sig, what)) => rep.violation(&sig, what, json!({"kind": "script", "initial": hex(&inits[0]), "initial_index": 0, "steps": steps_json(&script), "script_hex": hex(&encode_script(&script)), "grid": k})),
+            }
+        }
+    }
+    // a packet just below the 8192-byte insertion limit: every script of up to two steps (renames and insertions
+    // that take it across the limit, then every reader)
+    {
+        let big = {
+            let mut m = base_msg(&nm("b.a"), T_A, true);
+            m.an.push(a_rec(&nm("b.a"), 60, [1, 2, 3, 4]));
+            m.ns.push(name_rec(&nm("a"), T_NS, 7, &nm("ns.b.a")));
+            let used = encode(&m, Strategy::Plain).len();
+            m.ar.push(Rec { owner: nm("a"), rtype: 99, class: 1, ttl: 0, rdata: Rdata::Opaque(vec![0x42; 8150 - used - 13]) });
+            encode(&m, Strategy::Plain)
+        };
+        for s1 in steps_for(&big) {
+            gi += 1;
+            if !ctx.mine(gi) || ctx.timed_out() {
+                continue;
+            }
+            let mut scripts = vec![vec![s1.clone()]];
+            let mut pp = crate::subj::parse(&big).unwrap();
+            if caught(|| native_run(&mut pp, &[s1.clone()])).is_ok() {
+                if let Some(b) = &pp.packet {
+                    if crate::bfs_exec::view_check(&snap(&pp)).is_ok() {
+                        for s2 in steps_for(b) {
+                            if matches!(s2, Step::Flags | Step::Question | Step::RawPacket(_) | Step::Rename(..) | Step::Add(..)) || matches!(&s2, Step::Iter { ops, .. } if ops.len() <= 1) {
+                                scripts.push(vec![s1.clone(), s2]);
+                            }
+                        }
+                    }
+                }
+            }
+            for script in scripts {
+                rep.transitions += script.len() as u64;
+                rep.evaluations += 1;
+                rep.states += 1;
+                match check_script(&table, &big, &script) {
+                    Ok(c) => rep.class(&c),
+                    Err((sig, what)) => rep.violation(&sig, what, json!({"kind": "script", "initial": hex(&big), "initial_index": 99, "steps": steps_json(&script), "script_hex": hex(&encode_script(&script))})),
+                }
+            }
+        }
+    }
     'outer: for (ii, init) in inits.iter().enumerate() {
         let s1s = steps_for(init);
         for s1 in &s1s {
